@@ -172,7 +172,7 @@ class Gen:
         req = {}
         for r in rng.sample(names, k):
             req[r] = rng.choice([1, 1, 1, 2, 0.5])
-            if req[r] > self.resources[r]:
+            if self.resources[r] and req[r] > self.resources[r]:
                 req[r] = self.resources[r] if rng.random() < 0.85 else req[r]
         if rng.random() < 0.05:
             req[rng.choice(names)] = 0
@@ -324,6 +324,9 @@ class Gen:
         if rng.random() < p['p_resources']:
             for k in range(rng.randint(*p['n_resources'])):
                 self.resources[f'r{k}'] = rng.randint(*p['res_cap'])
+            if rng.random() < 0.15:
+                # a pool whose capacity schedule starts at 0: it does not exist until its first rise
+                self.resources[rng.choice(sorted(self.resources))] = 0
         for _ in range(rng.randint(*p['n_sources'])):
             ct = rng.choice(p['src_cts'])
             budget = rng.choice(p['budget'])
@@ -411,6 +414,10 @@ class Gen:
             w.pop('offset_cycle', None)
         if len(free) < 2:
             w.pop('rewire', None)
+        for r, c in sorted(self.resources.items()):
+            if c == 0:
+                ops.append({'t': grid_time(rng, horizon / 3.0), 'prio': rng.choice(PRIOS), 'op': 'add_capacity',
+                            'res': r, 'amount': rng.choice([1, 2, 3])})
         last_t = None
         for _ in range(n_ops):
             if not w:
